@@ -30,6 +30,8 @@ Definition rn_txs (rho : Z -> Z) (t : txs) : txs :=
 Definition rn_frac (rho : Z -> Z) (f : fraction) : fraction :=
   {| f_ev := rho (f_ev f); f_lot := option_map rho (f_lot f); f_amt := f_amt f |}.
 Definition rn_res {A B} (f : A -> B) (r : result A) : result B := match r with Ok x => Ok (f x) | Err e => Err e end.
+(** an entry of the parser's table row id -> (unique_id argument, notes argument) *)
+Definition rn_meta (rho : Z -> Z) (m : Z * arg * arg) : Z * arg * arg := (rho (fst (fst m)), snd (fst m), snd m).
 
 (** * the same tables in another order *)
 (** what a table holds: its type and its typed rows (not: blank rows before it, keyword / header / TABLE END rows, junk in
@@ -55,11 +57,13 @@ Record table_renaming (rho : Z -> Z) (p : parsed) : Prop := {
   tr_inj : inj_on rho (parsed_rows p) }.
 
 (** the transaction sets of [p2] are those of [p1], in the same order, under such a renaming (in particular they are equal
-    after forgetting the row ids: Proofs/TableOrder.v [same_up_to_rows_forget]); same artificial-id counter afterwards *)
+    after forgetting the row ids: Proofs/TableOrder.v [same_up_to_rows_forget]); same artificial-id counter afterwards; the
+    table row id -> (unique_id, notes) holds the renamed entries (its order follows the sheet, hence [Permutation]) *)
 Definition renamed_by (rho : Z -> Z) (p1 p2 : parsed) : Prop :=
   table_renaming rho p1 /\
   pa_ins p2 = map (rn_in rho) (pa_ins p1) /\ pa_outs p2 = map (rn_out rho) (pa_outs p1) /\
-  pa_intras p2 = map (rn_intra rho) (pa_intras p1) /\ pa_counter p2 = pa_counter p1.
+  pa_intras p2 = map (rn_intra rho) (pa_intras p1) /\ pa_counter p2 = pa_counter p1 /\
+  Permutation (pa_meta p2) (map (rn_meta rho) (pa_meta p1)).
 Definition same_up_to_rows (p1 p2 : parsed) : Prop := exists rho, renamed_by rho p1 p2.
 
 (** * from the parser's result to the transaction sets of the computation
